@@ -47,8 +47,11 @@ type Fault struct {
 	Bucket  string `json:"bucket"`  // bucket name; "" = any
 	Kind    string `json:"kind"`    // operation kind
 	Ordinal int    `json:"ordinal"` // k-th operation of (bucket, kind) within the transaction, 1-based
-	Action  string `json:"action"`  // fail | snapshot
+	Action  string `json:"action"`  // fail | snapshot | panic
 }
+
+// ErrPanicInjected is the value of the panic raised by a fault with action "panic".
+var ErrPanicInjected = errors.New("faultx: injected panic")
 
 func (f Fault) String() string {
 	return fmt.Sprintf("%s %s#%d on %q in tx %d", f.Action, f.Kind, f.Ordinal, f.Bucket, f.Tx)
@@ -79,6 +82,22 @@ type txState struct {
 	inflight atomic.Int64
 	counts   map[string]int // bucket|kind -> count
 	mu       sync.Mutex
+	owner    int64 // goroutine that called Read/Write
+}
+
+// goid returns the id of the calling goroutine.
+func goid() int64 {
+	var buf [64]byte
+	n := runtime.Stack(buf[:], false)
+	// "goroutine 123 [running]:"
+	var id int64
+	for _, c := range buf[len("goroutine "):n] {
+		if c < '0' || c > '9' {
+			break
+		}
+		id = id*10 + int64(c-'0')
+	}
+	return id
 }
 
 // Proxy wraps a DiskStore.
@@ -244,6 +263,11 @@ func (p *Proxy) op(tx *txState, bucket, kind string) (err error, forward bool) {
 	p.mu.Lock()
 	f := p.fault
 	match := f != nil && !p.fired && (f.Tx == 0 || f.Tx == tx.id) && (f.Bucket == "" || f.Bucket == bucket) && f.Kind == kind && f.Ordinal == ord
+	if match && f.Action == "panic" && goid() != tx.owner {
+		// a panic on any other goroutine ends the process without unwinding the
+		// caller of Write: that death is the crash image taken at this operation
+		match = false
+	}
 	if match {
 		p.fired = true
 	}
@@ -262,6 +286,11 @@ func (p *Proxy) op(tx *txState, bucket, kind string) (err error, forward bool) {
 			return ErrInjected, false
 		case "snapshot":
 			p.snapshot()
+		case "panic":
+			// the goroutine that called Write dies here: its deferred functions
+			// run (bbolt's rollback among them) while the stack unwinds
+			tx.inflight.Add(-1)
+			panic(ErrPanicInjected)
 		}
 	}
 	return nil, true
@@ -288,10 +317,18 @@ func (p *Proxy) snapshot() {
 	out.Close()
 }
 
+// Snapshot copies the database file as it is now and returns the copy's path.
+func (p *Proxy) Snapshot() string {
+	p.snapshot()
+	p.mu.Lock()
+	defer p.mu.Unlock()
+	return p.snapTaken[len(p.snapTaken)-1]
+}
+
 func (p *Proxy) begin(writable bool) *txState {
 	p.mu.Lock()
 	p.txSeq++
-	tx := &txState{id: p.txSeq, writable: writable, counts: map[string]int{}}
+	tx := &txState{id: p.txSeq, writable: writable, counts: map[string]int{}, owner: goid()}
 	p.perTx = append(p.perTx, tx.counts)
 	p.mu.Unlock()
 	return tx
@@ -345,7 +382,14 @@ func (p *Proxy) run(writable bool, f func(diskstore.BucketManager) error) error 
 			return err
 		}
 		p.done(tx)
+		returned := false
+		defer func() {
+			if !returned { // unwinding a panic: the transaction is over for everybody
+				p.finish(tx)
+			}
+		}()
 		err := f(&bmProxy{p: p, tx: tx, inner: bm})
+		returned = true
 		// the function returned: from here on bbolt commits or rolls back;
 		// nothing may touch the transaction any more
 		if ierr, fwd := p.op(tx, "", KReturn); !fwd && err == nil {
